@@ -203,7 +203,13 @@ def check_composite_package_toml(ws, bid, path, pkgdir, profile):
     return None
 
 
-def compare(ws, bid, pkgdir, profile):
+# entry names a fresh packaging run (into an empty directory) produced, per buildpack id: anything beyond
+# the prescribed entries is judged against these ("the same as packaging into an empty directory"),
+# so an implementation that legitimately writes an additional file is not reported
+FRESH_ENTRIES = {}
+
+
+def compare(ws, bid, pkgdir, profile, fresh_run=False):
     d = out_dir(pkgdir, profile, bid)
     if not os.path.isdir(d):
         return [f"{bid}: output directory {d} missing"]
@@ -220,9 +226,12 @@ def compare(ws, bid, pkgdir, profile):
                     problems.append(e)
         elif got.get(k) != v:
             problems.append(f"{bid}: {k} is {got.get(k)}, expected {v}")
+    if fresh_run:
+        FRESH_ENTRIES[(ws.root, profile, bid)] = set(got)
+    allowed = FRESH_ENTRIES.get((ws.root, profile, bid), set())
     for k in got:
-        if k not in exp:
-            problems.append(f"{bid}: unexpected entry {k} {got[k]} in the packaged buildpack")
+        if k not in exp and k not in allowed:
+            problems.append(f"{bid}: unexpected entry {k} {got[k]} in the packaged buildpack (a fresh run does not produce it)")
     return problems
 
 
@@ -326,7 +335,7 @@ def run(ctx):
             order = progress_order(p.stderr)
             order_events.append({"kind": "order", "deps": {b: ws.deps_of(b) for b in ws.all_ids()}, "roots": ws.all_ids(), "order": order, "ok": True})
             for b in ws.all_ids():
-                for e in compare(ws, b, pkgdir, profile):
+                for e in compare(ws, b, pkgdir, profile, fresh_run=True):
                     ctx.violation("fresh output incomplete", f"{label}: {e}", {"label": label, "buildpack": b}, "cargo_libcnb")
             if os.path.exists(out_dir(pkgdir, profile, "verif/shell")):
                 ctx.violation("non-libcnb buildpack packaged", f"{label}: the shell buildpack was packaged", {"label": label}, "cargo_libcnb")
